@@ -243,6 +243,10 @@ def _pk_arg(keys, case, pkb):
     form = case.get('pkform', 'key_pub')
     if form == 'key_pub':
         return keys.Key(pkb)
+    if form == 'key_nonstrict':
+        # the way transaction parsing builds the keys it finds (no validation at construction): the verifier itself
+        # must refuse a point that is not on the curve
+        return keys.Key(pkb, strict=False)
     if form == 'key_priv' and case.get('d'):
         return keys.Key(int(case['d'], 16), compressed=len(pkb) == 33)
     if form == 'hdkey_pub':
@@ -673,7 +677,8 @@ def strategies(ctx):
         build_verify_case, st.sampled_from(MODES), gen.secrets(), vdig, ks, st.integers(0, 1 << 30),
         st.integers(0, (1 << 256) - 1), st.integers(0, 255), st.sampled_from(DER_HOWS), st.booleans(),
         st.sampled_from(['ints', 'raw64', 'hex128', 'der', 'der', 'der_hex']),
-        st.sampled_from(['key_pub', 'key_pub', 'key_priv', 'hdkey_pub', 'bytes', 'bytes', 'hex']),
+        st.sampled_from(['key_pub', 'key_pub', 'key_priv', 'hdkey_pub', 'bytes', 'bytes', 'hex', 'key_nonstrict',
+                         'key_nonstrict']),
         st.sampled_from(['bytes', 'hex']), st.sampled_from(['verify_fn', 'verify_fn', 'sig_method', 'sig_ctor_pk']),
         st.sampled_from([1, 1, 1, 0, 2, 3, 0x81, 0xff]))
     h = n // 2
